@@ -52,4 +52,10 @@ theorem cms_query_point_translated (s : Cms.St) (cols : List Nat) :
       | none => Flow.panic
       | some v => Flow.ret v := cms_query_point_eq s cols
 
+/-- the two residues `h1`, `h2` of `HashIterBuilder::iter_for` as translated, and every probe position as `next` of them -/
+theorem iter_for_translated (hash : List Nat → Nat) (m k x i : Nat) (hm : m ≠ 0) (hi : i < k) :
+    ∃ h1 h2, hashiter_iter_for m (fun x i => hash [i, x]) x = Flow.ret (h1, h2) ∧
+      (HashIter.positions hash m k x).map (fun l => l[i]?) = some (some (hashiter_next i h1 h2 m (hash [i + 2] % m))) :=
+  hashiter_positions_eq hash m k x i hm hi
+
 end Pds.Tie.C08
